@@ -12,21 +12,24 @@
 //   hdrs   [[name value] ...]                         header lines sent after "Host: example.org"
 //   oracle [[text ip16 canonText] ...]                net.ParseIP / IP.String() of the candidate address texts in hdrs
 //                                                     (texts not listed do not parse); checked by impl against Go's net
-// output: [trusted caddr xff xrip xrport xfport]
+// output: [trusted caddr xff xrip xrport xfport xfhost xbfeip]
 //   trusted 0/1  session.TrustSource() ; caddr [] (nil) or [ip16 port] = req.ClientAddr seen by later callbacks
-//   xff, xrip, xrport, xfport : lists of the values of X-Forwarded-For, X-Real-Ip, X-Real-Port, X-Forwarded-Port
+//   xff, xrip, xrport, xfport, xfhost, xbfeip : lists of the values of X-Forwarded-For, X-Real-Ip, X-Real-Port,
+//                               X-Forwarded-Port, X-Forwarded-Host, X-Bfe-Ip
 //                               received by the backend (op 1) / in the request after the callbacks (op 2)
 // op 1: the client's source port is ephemeral; every occurrence of the actual port (ClientAddr.Port, an X-Real-Port value,
 // the last element of X-Forwarded-Port) is reported as the placeholder port given in the input.
 package main
 
 import (
+	"bufio"
 	"bytes"
 	"encoding/json"
 	"fmt"
 	"io"
 	"io/ioutil"
 	"net"
+	"net/http"
 	"net/url"
 	"os"
 	"path/filepath"
@@ -132,11 +135,15 @@ type rng struct{ b, e string }
 
 func reload(w *web_monitor.WebHandlers, dir string, table []rng) error {
 	type scope struct{ Begin, End string }
-	sc := []scope{}
-	for _, r := range table {
-		sc = append(sc, scope{r.b, r.e})
+	sc, sc2 := []scope{}, []scope{} // two trust sources, ranges dealt alternately
+	for i, r := range table {
+		if i%2 == 0 {
+			sc = append(sc, scope{r.b, r.e})
+		} else {
+			sc2 = append(sc2, scope{r.b, r.e})
+		}
 	}
-	b, _ := json.Marshal(map[string]interface{}{"Version": "v", "Config": map[string]interface{}{"src": sc}})
+	b, _ := json.Marshal(map[string]interface{}{"Version": "v", "Config": map[string]interface{}{"src": sc, "src2": sc2}})
 	p := filepath.Join(dir, "mod_trust_clientip", "verif_table.data")
 	if err := ioutil.WriteFile(p, b, 0644); err != nil {
 		return err
@@ -312,11 +319,17 @@ func implE2E(x *input) hv.Val {
 	if _, err := c.Write(rawRequest(x, true)); err != nil {
 		return hv.Err(4)
 	}
-	if _, err := io.Copy(ioutil.Discard, c); err != nil {
+	// one framed response (the generated Connection lines may keep the connection open), then we hang up
+	if resp, err := http.ReadResponse(bufio.NewReader(c), &http.Request{Method: "GET"}); err != nil {
 		if ne, ok := err.(net.Error); ok && ne.Timeout() {
 			return hv.Timeout()
 		}
+		return hv.Err(8)
+	} else {
+		io.Copy(ioutil.Discard, io.LimitReader(resp.Body, 1<<16))
+		resp.Body.Close()
 	}
+	c.Close()
 	conns := bk.Conns()
 	obsMu.Lock()
 	seen, tr, addr := obsSeen, obsTrusted, obsAddr
@@ -350,7 +363,7 @@ func implE2E(x *input) hv.Val {
 		return out
 	}
 	return hv.L{hv.I(tr), addrVal(addr, actual, x.port), vals(got["x-forwarded-for"]), vals(got["x-real-ip"]),
-		vals(subst(got["x-real-port"])), vals(subst(got["x-forwarded-port"]))}
+		vals(subst(got["x-real-port"])), vals(subst(got["x-forwarded-port"])), vals(got["x-forwarded-host"]), vals(got["x-bfe-ip"])}
 }
 
 // ---------------------------------------------------------------------------------------------------------------
@@ -394,7 +407,7 @@ func implCB(x *input) hv.Val {
 	}
 	h := req.HttpRequest.Header
 	return hv.L{hv.I(tr), addrVal(req.ClientAddr, 0, 0), vals(h["X-Forwarded-For"]), vals(h["X-Real-Ip"]),
-		vals(h["X-Real-Port"]), vals(h["X-Forwarded-Port"])}
+		vals(h["X-Real-Port"]), vals(h["X-Forwarded-Port"]), vals(h["X-Forwarded-Host"]), vals(h["X-Bfe-Ip"])}
 }
 
 func impl(in hv.Val) hv.Val {
@@ -451,6 +464,8 @@ var ipTexts = []string{"1.2.3.4", "8.8.8.8, 9.9.9.9", " 1.2.3.4 ,5.6.7.8", "2001
 	"bogus", "", "1.2.3.4.5", "01.2.3.4", "203.0.113.7", "10.0.0.1", "127.0.0.1", "bogus, 1.2.3.4", ", 1.2.3.4", "1.2.3.4,",
 	"::1", "fe80::1%eth0", "1.2.3.4:80", "[::1]", "256.1.1.1", "6.6.6.6 , 7.7.7.7 , 8.8.8.8"}
 var portTexts = []string{"80", "8080", "0", "443", "29999", "70000", "-1", "+80", "abc", "", "80, 443", "080", "8 0", "1e3"}
+var connToks = []string{"X-Real-Ip", "x-real-ip", "X-REAL-IP", "X-Real-Port", "x-real-port", "X-Forwarded-For", "x-forwarded-for",
+	"X-FORWARDED-FOR", "X-Forwarded-Port", "x-forwarded-port", "close", "keep-alive", "x-other", "X-Bfe-Ip", "X-Forwarded-Host", ""}
 var hdrNames = [][]string{{"X-Forwarded-For", "x-forwarded-for", "X-FORWARDED-FOR"}, {"X-Real-Ip", "X-Real-IP", "x-real-ip"},
 	{"X-Real-Port", "x-real-port"}, {"X-Forwarded-Port", "X-forwarded-port"}}
 
@@ -536,6 +551,38 @@ func gen(r *hv.Rng, i int, tier string) (string, hv.Val) {
 	if r.Chance(1, 3) {
 		hs = append(hs, [2]string{"X-Other", "1"})
 	}
+	if r.Chance(1, 4) { // forged X-Forwarded-Host / X-Bfe-Ip (mod_header appends resp. overwrites)
+		for k := r.Intn(2); k >= 0; k-- {
+			hs = append(hs, [2]string{r.Pick([]string{"X-Forwarded-Host", "x-forwarded-host"}), r.Pick([]string{"evil.example", "a.example, b.example", ""})})
+		}
+		if r.Bool() {
+			hs = append(hs, [2]string{r.Pick([]string{"X-Bfe-Ip", "x-bfe-ip"}), r.Pick([]string{"6.6.6.6", ""})})
+		}
+	}
+	// Connection lines nominating the address fields (a hop-by-hop stage that acted on them after mod_header has
+	// written the fields would strip the peer's address from the upstream request)
+	nominating := false
+	if r.Chance(2, 5) {
+		nominating = true
+		nl := 1 + r.Intn(3)
+		if r.Chance(2, 3) {
+			nl = 1
+		}
+		for j := 0; j < nl; j++ {
+			var ts []string
+			switch r.Intn(4) {
+			case 0: // everything
+				ts = []string{"X-Real-Ip", "X-Real-Port", "X-Forwarded-For", "X-Forwarded-Port"}
+			case 1:
+				ts = []string{r.Pick(connToks)}
+			default:
+				for k := r.Intn(4); k >= 0; k-- {
+					ts = append(ts, r.Pick(connToks))
+				}
+			}
+			hs = append(hs, [2]string{r.Pick([]string{"Connection", "connection", "CONNECTION"}), strings.Join(ts, r.Pick([]string{", ", ",", " , "}))})
+		}
+	}
 	for k := len(hs) - 1; k > 0; k-- { // shuffle
 		j := r.Intn(k + 1)
 		hs[k], hs[j] = hs[j], hs[k]
@@ -566,6 +613,9 @@ func gen(r *hv.Rng, i int, tier string) (string, hv.Val) {
 	if len(hs) == 0 {
 		class += "-nohdr"
 	}
+	if nominating {
+		class += "-conn"
+	}
 	if i == 0 {
 		return "triv-empty", hv.L{hv.I(2), hv.L{}, hv.L{hv.B([]byte(net.ParseIP("1.2.3.4").To16())), hv.S("1.2.3.4"), hv.I(40000)}, hv.L{}, hv.L{}}
 	}
@@ -573,7 +623,7 @@ func gen(r *hv.Rng, i int, tier string) (string, hv.Val) {
 }
 
 func main() {
-	hv.Main(&hv.Spec{Prop: "C29", Gen: gen, Impl: impl, NQuick: 3000, NThorough: 100000})
+	hv.Main(&hv.Spec{Prop: "C29", Gen: gen, Impl: impl, NQuick: 2400, NThorough: 100000})
 	if srv != nil {
 		srv.Close()
 	}
